@@ -8,6 +8,18 @@ from .env import *
 
 from amoco.cas.utils import *
 
+
+def _slt(a, b):
+    """signed a < b as an unsigned comparison of the operands with their sign
+    bit flipped (does not depend on, nor modify, the operands' sign flags)"""
+    msb = cst(1 << (a.size - 1), a.size)
+    return oper(OP_LTU, a ^ msb, b ^ msb)
+
+
+def _sltu(a, b):
+    "unsigned a < b"
+    return oper(OP_LTU, a, b)
+
 # ------------------------------------------------------------------------------
 # helpers and decorators :
 
@@ -432,35 +444,35 @@ def i_SLLV(ins, fmap):
 @__npc
 def i_SLT(ins, fmap):
     dst, src1, src2 = ins.operands
-    s1 = fmap(src1).signed()
-    s2 = fmap(src2).signed()
+    s1 = fmap(src1)
+    s2 = fmap(src2)
     if dst is not zero:
-        fmap[dst] = tst(s1<s2,cst(1,32),cst(0,32)).simplify()
+        fmap[dst] = tst(_slt(s1, s2),cst(1,32),cst(0,32)).simplify()
 
 @__npc
 def i_SLTU(ins, fmap):
     dst, src1, src2 = ins.operands
-    s1 = fmap(src1).unsigned()
-    s2 = fmap(src2).unsigned()
+    s1 = fmap(src1)
+    s2 = fmap(src2)
     fmap.update_delayed()
     if dst is not zero:
-        fmap[dst] = tst(s1<s2,cst(1,32),cst(0,32)).simplify()
+        fmap[dst] = tst(_sltu(s1, s2),cst(1,32),cst(0,32)).simplify()
 
 @__npc
 def i_SLTI(ins, fmap):
     dst, src1, imm = ins.operands
-    s1 = fmap(src1).signed()
+    s1 = fmap(src1)
     fmap.update_delayed()
     if dst is not zero:
-        fmap[dst] = tst(s1<imm,cst(1,32),cst(0,32)).simplify()
+        fmap[dst] = tst(_slt(s1, imm),cst(1,32),cst(0,32)).simplify()
 
 @__npc
 def i_SLTIU(ins, fmap):
     dst, src1, imm = ins.operands
-    s1 = fmap(src1).unsigned()
+    s1 = fmap(src1)
     fmap.update_delayed()
     if dst is not zero:
-        fmap[dst] = tst(s1<imm,cst(1,32),cst(0,32)).simplify()
+        fmap[dst] = tst(_sltu(s1, imm),cst(1,32),cst(0,32)).simplify()
 
 @__npc
 def i_SRA(ins, fmap):
